@@ -146,6 +146,7 @@ type harnessDecl struct {
 	MaxPaths   int
 	Witnesses  int
 	witnessesSet bool
+	OptSummary map[string]bool
 	Product    bool
 	Doc        string
 	Bounds     []string
@@ -153,7 +154,7 @@ type harnessDecl struct {
 }
 
 func parseDirectives(fd *ast.FuncDecl) *harnessDecl {
-	h := &harnessDecl{Name: fd.Name.Name, Mode: "rel", Tier: "quick", Summaries: map[string]string{}, Witnesses: 2}
+	h := &harnessDecl{Name: fd.Name.Name, Mode: "rel", Tier: "quick", Summaries: map[string]string{}, OptSummary: map[string]bool{}, Witnesses: 2}
 	if fd.Doc == nil {
 		return h
 	}
@@ -175,10 +176,14 @@ func parseDirectives(fd *ast.FuncDecl) *harnessDecl {
 			h.Mode = rest
 		case "tier":
 			h.Tier = rest
-		case "summary":
+		case "summary", "summary-opt":
 			p := strings.SplitN(rest, "=>", 2)
 			if len(p) == 2 {
 				h.Summaries[strings.TrimSpace(p[0])] = strings.TrimSpace(p[1])
+				if f[0] == "summary-opt" {
+					// a contract for a callee the unchanged tree does not reach from this harness: absent target is not an error
+					h.OptSummary[strings.TrimSpace(p[0])] = true
+				}
 			}
 		case "cover":
 			h.Covers = append(h.Covers, f[1:]...)
@@ -346,6 +351,9 @@ func (c *Config) makeSpecs(l *loaded, findings map[string]bool) ([]*symx.Harness
 			}
 			if sf == nil {
 				return nil, nil, fmt.Errorf("%s: summary function %s not found", d.Name, sub)
+			}
+			if !functionExists(l.prog, target) && d.OptSummary[target] {
+				continue
 			}
 			if !functionExists(l.prog, target) {
 				return nil, nil, fmt.Errorf("%s: summarised function %q does not exist in the current tree", d.Name, target)
@@ -529,7 +537,7 @@ func runCheck(c *Config) int {
 	var notes []string
 	for _, r := range results {
 		d := decls[r.Spec.Name]
-		native := len(d.Summaries) == 0 && !c.NoReplay
+		native := (len(d.Summaries) == 0 || len(r.Summarised) == 0) && !c.NoReplay // summaries declared but never applied do not change the run
 		for _, w := range r.Witnesses {
 			if !native {
 				continue
